@@ -406,6 +406,9 @@ func (m *M) vrt(p *path, fr *Frame, ci ssa.CallInstruction, name string, args []
 		}
 		return m.done(p, fr, ci, isDefer, nil)
 	case "CancelAnytime":
+		if len(args[0].(*VSet).Alts) != 1 {
+			panic(unsupported("vrt.CancelAnytime with a merged function value"))
+		}
 		cl := args[0].(*VSet).Alts[0].C.(*Closure)
 		if cl.Intr != "cancel" {
 			panic(unsupported("CancelAnytime of a non-cancel function"))
@@ -422,6 +425,9 @@ func (m *M) vrt(p *path, fr *Frame, ci ssa.CallInstruction, name string, args []
 		}
 		return m.done(p, fr, ci, isDefer, nil)
 	case "AtQuiescence":
+		if len(args[0].(*VSet).Alts) != 1 {
+			panic(unsupported("vrt.AtQuiescence with a merged function value"))
+		}
 		cl := args[0].(*VSet).Alts[0].C.(*Closure)
 		m.spawnGated(p, fr, ci, cl.Fn, cl.Bindings, nil, "monitor", -1)
 		return m.done(p, fr, ci, isDefer, nil)
@@ -429,6 +435,9 @@ func (m *M) vrt(p *path, fr *Frame, ci ssa.CallInstruction, name string, args []
 		p.cfg.Status = stParked
 		return false
 	case "Ghost", "Atomic":
+		if len(args[0].(*VSet).Alts) != 1 {
+			panic(unsupported("vrt.Atomic with a merged function value"))
+		}
 		cl := args[0].(*VSet).Alts[0].C.(*Closure)
 		m.pushFrame(p, fr, cl.Fn, cl.Bindings, nil, nil, isDefer)
 		m.top(p.cfg).Ghost = true
